@@ -25,6 +25,14 @@ CHECKS = {
             'H(Y*|X)-H(Y|X) computed from the statement; corollaries (constant / identifier feature, self pair, heuristic-name flag) and the '
             'ranking corollary over generated seeds of the planted family.',
             'Trusted: reference model; the ranking corollary is statistical (sampled seeds).', 'DESIGN.md §3 C03'),
+    'C04': ('Hypothesis cases evaluated in sacrificial worker interpreters (generated heap-poisoning histories, MALLOC_PERTURB_ bytes): '
+            'termination + bitwise determinism + reference model + metamorphic (alter rows outside the sample)',
+            'Exploration: each generated (pair, float32 ratio, flag, three heap histories) is evaluated in two persistent worker '
+            'interpreters with different MALLOC_PERTURB_ bytes after the worker has left chosen bytes in freed chunks of the index '
+            'buffer size classes; oracles: worker survives, identical float32 bit pattern across histories/processes, agreement with '
+            'the sample-only model, bit-identical score after altering feature values outside the sampled rows.',
+            'No sanitizer for JIT code: out-of-bounds reads are visible only via crashes, non-determinism or model disagreement. '
+            'r*n within 1e-4 of an integer excluded (float32 floor ambiguity).', 'DESIGN.md §3 C04'),
 }
 
 NOT_YET = 'check not built yet in this commit (work in progress; planned in DESIGN.md §3)'
